@@ -22,6 +22,10 @@ CONSTANTS
   MaxMigs = 2
   StaleTableAtStart = TRUE
   MaxFollowed = 0
+  DeathKinds = {"refused"}
+  RefreshOnTimeout = TRUE
+  PromotedFlags = {{"master"}}
+  ParserSkips = {}
 INVARIANTS NoChain2
 CONSTRAINT HopBound
 CHECK_DEADLOCK FALSE
